@@ -186,6 +186,7 @@ class Tally:
         self.known = {}          # finding id -> [count, example]
         self.violations = 0
         self.law_evals = {}      # law -> evaluations on real observations
+        self.scheme_cov = {}     # (schemes of two routes really matching one URI) x (scheme of that URI) -> count
         self.verdicts = []       # for --replay
 
     def law(self, name, n=1):
@@ -405,6 +406,9 @@ def eval_tab(rec, ti, case, res, T):
                 i, j = r["all"][ai], r["all"][bi]
                 o, pr = amb[(i, j)]
                 T.law("AmbiguityComplete")
+                si, sj, su = rec["ps"][i]["sc"], rec["ps"][j]["sc"], x["u"]["sc"]
+                pk = "none,none" if not si and not sj else "none,s" if not si or not sj else "s,s" if si == sj else "s,t"
+                T.scheme_cov[pk + " | uri " + ("none" if not su else "s")] = T.scheme_cov.get(pk + " | uri " + ("none" if not su else "s"), 0) + 1
                 if not (o["lr"] and o["rl"]):
                     cand = ["F8a"] if (pr["f8a"] and not o["lr"] and not o["rl"]) else []
                     T.reject("AmbiguityComplete", "%r and %r both match %r but are_ambiguous = %s / %s (reversed)" % (
@@ -604,9 +608,13 @@ def plan(tier):
             ("patterns", "MC_Route", route_cfg(L6, ["x", "y", "xe"], ["", "s", "sr"], [True, False], 2, 1), 1, 6),
             ("patterns3", "MC_Route", route_cfg(["a", "ae", "ur"], ["x", "xe"], ["", "s"], [True, False], 3, 1), 1, 2),
             ("pairs", "MC_Route", route_cfg(["a", "ae", "b"], ["x", "y"], ["", "s"], [True, False], 2, 2), 1, 1),
+            # schemes: a URI without a scheme matches a pattern of ANY scheme, so 's:/a' and 't:/a' overlap - needs two
+            # explicit scheme symbols, all of (none, s) (s, s) (s, t), and witnesses with no scheme / s / t
+            ("pairs-schemes", "MC_Route", route_cfg(["a", "b"], ["x"], ["", "s", "t"], [True, False], 2, 2), 1, 2),
+            ("tables-schemes", "MC_Route", route_cfg(["a"], ["x"], ["", "s", "t"], [True], 2, 3), 1, 1),
             ("pairs3", "MC_Route", route_cfg(["a", "ae", "ur"], ["x"], [""], [True], 3, 2), 1, 1),
             ("tables", "MC_Route", route_cfg(["a", "ae", "b"], ["x"], [""], [True], 2, 3), 1, 1),
-            ("overlap-def", "Route", route_cfg(["a", "ae", "b"], ["x"], ["", "s"], [True, False], 2, 2, deep=True, dump=False), 2, 0),
+            ("overlap-def", "Route", route_cfg(["a", "ae", "b"], ["x"], ["", "s", "t"], [True, False], 2, 2, deep=True, dump=False), 2, 0),
             ("parser", "Gen_Route", gen_cfg(6), 1, 2),
         ]
     return [
@@ -615,8 +623,8 @@ def plan(tier):
         ("pairs", "MC_Route", route_cfg(["a", "ae", "b", "ue", "ur"], ["x", "y", "xe"], ["", "s", "t"], [True, False], 2, 2), 1, 2),
         ("pairs3", "MC_Route", route_cfg(["a", "ae", "b", "ur"], ["x", "y"], [""], [True], 3, 2), 1, 2),
         ("tables", "MC_Route", route_cfg(["a", "ae", "b"], ["x"], [""], [True], 2, 4), 1, 2),
-        ("tables-mixed", "MC_Route", route_cfg(["a", "ae"], ["x"], ["", "s"], [True, False], 2, 3), 1, 2),
-        ("overlap-def", "Route", route_cfg(["a", "ae", "b", "ue", "ur"], ["x", "xe"], ["", "s"], [True, False], 2, 2, deep=True, dump=False), 4, 0),
+        ("tables-mixed", "MC_Route", route_cfg(["a", "ae"], ["x"], ["", "s", "t"], [True, False], 2, 3), 1, 2),
+        ("overlap-def", "Route", route_cfg(["a", "ae", "b", "ue", "ur"], ["x", "xe"], ["", "s", "t"], [True, False], 2, 2, deep=True, dump=False), 4, 0),
         ("parser", "Gen_Route", gen_cfg(8), 1, 4),
     ]
 
@@ -755,10 +763,16 @@ def run(tier, out):
     for fid, (n, example) in sorted(T.known.items()):
         what = [f for f in core.open_findings(PROP) if f["id"] == fid][0]["what"]
         out.known_finding("%s %s; reproduced on the real code in %d cases, e.g. %s" % (fid, what, n, example))
+    # vacuity guard for the scheme dimension: two routes with DIFFERENT explicit schemes matching one scheme-less URI
+    # (and the other combinations) must have been observed on the real code
+    need = ["none,s | uri none", "none,s | uri s", "s,s | uri none", "s,s | uri s", "s,t | uri none"]
+    missing = [k for k in need if not T.scheme_cov.get(k)]
+    if missing and not T.violations:
+        raise core.ToolError("scheme combinations never observed as a double match on the real code: %s (have %s)" % (missing, T.scheme_cov))
     never = [a for a, (d, t) in cov.items() if t == 0]
     out.add(states=tot_states, transitions=tot_trans, traces_validated_against_impl=T.accepted_cases,
             cases_replayed=T.cases, real_operations=T.ops, model_drift=T.drift, p_rejections_unlisted=T.violations,
-            law_evaluations_on_real_observations=T.law_evals,
+            law_evaluations_on_real_observations=T.law_evals, double_matches_by_schemes=T.scheme_cov,
             known_finding_cases={k: v[0] for k, v in T.known.items()},
             tlc_runs=runs_info, b3_counterexamples_without_excuse=b3, simulation_states_generated=sim_states[0],
             action_coverage={a: {"distinct": d, "taken": t} for a, (d, t) in cov.items()},
